@@ -47,6 +47,7 @@ type Machine struct {
 	callStack []string
 	uuidCtr   int
 	notes     map[string]Val
+	pendingAx []string
 }
 
 var opaqueErrType = types.NewNamed(types.NewTypeName(token.NoPos, nil, "opaqueError", nil), types.Typ[types.Int], nil)
